@@ -124,7 +124,7 @@ class C07(core.Check):
     def cases(self, ctx):
         r = core.rng(self.seed, "C07", "gen")
         files = []   # (name, bytes)
-        nper = 1 if self.quick else 6
+        nper = 1 if self.quick else 24
         for ht in range(4):
             for j in range(nper):
                 pieces = [r.randbytes(r.randrange(1, 60)) for _ in range(r.randrange(1, 6))]
